@@ -27,6 +27,24 @@ def handleChunk (op : String) (j : Json) : Except String Json := do
     match chunkAll p h pieces with
     | some cs => pure (Json.mkObj [("chunks", natArr (cs.map List.length)), ("greedy", g)])
     | none => pure (Json.mkObj [("oob", Json.bool true), ("greedy", g)])
+  | "chunk.sync" =>
+    -- C11 observable of two streams P₁ ++ X (pieces `a`, |P₁| = pa) and P₂ ++ X (pieces `b`, |P₂| = pb)
+    let (p, h) ← chunkParams j
+    let a ← (← getArr j "a").toList.mapM (fun x => do unhex (← x.getStr?))
+    let b ← (← getArr j "b").toList.mapM (fun x => do unhex (← x.getStr?))
+    let pa ← getNat j "pa"
+    let pb ← getNat j "pb"
+    let o := Sync.syncObs p h a b pa pb
+    let optArr : Option (List Nat) → Json := fun x => match x with | some l => natArr l | none => Json.null
+    pure (Json.mkObj [("lensA", optArr o.lensA), ("lensB", optArr o.lensB),
+      ("common", match o.common with | some c => jnat c | none => Json.null),
+      ("afterA", natArr o.afterA), ("afterB", natArr o.afterB), ("greedyX", optArr o.greedyX)])
+  | "chunk.pad_stream" =>
+    -- model of Repository.snapshot._stream_files: pieces, stream_start of every file
+    let files ← (← getArr j "files").toList.mapM (fun x => do unhex (← x.getStr?))
+    let pieces := Sync.padPieces files
+    pure (Json.mkObj [("pieces", Json.arr (pieces.map (fun x => Json.str (hex x))).toArray),
+      ("starts", natArr (Sync.fileStarts 0 files)), ("length", jnat (Sync.padStream files).length)])
   | "chunk.hash" =>
     let key ← getBytes j "key"
     let w ← getBytes j "w"
